@@ -7,6 +7,11 @@ from known samples, calls the real ``hvsrpy.read_single`` / ``hvsrpy.read`` and
 compares ns / ew / vt, the time step and ``degrees_from_north`` with what was
 written.  Inside every file configuration ALL 6 orders of the three traces in
 the file / of the three files in the list (SAF: all 6 column layouts) are run.
+The file names are handed over as str / Path / tuple and, where the readers
+take them, as in-memory files (``pathtype = memory``: io.BytesIO for miniSEED,
+SAC, GCF, io.StringIO for SAF, MiniShark, PEER, loaded from the files written);
+the same stream objects are then read a second time where the reader rewinds
+them itself (SAC, SAF, MiniShark, PEER).
 
 Families (one root = one file configuration of one family, or one malformed
 variant, or one list of recordings handed to ``read``):
@@ -21,7 +26,13 @@ variant, or one list of recordings handed to ``read``):
   malformed  files that must be refused (count mismatch, missing / duplicated
              component, empty file, unrecognised bytes)
   read       read(fnames, obspy_read_kwargs, degrees_from_north) for all shape
-             combinations of {None, one value, per-recording list}
+             combinations of {None, one value, per-recording list}; the
+             per-recording values also as tuple / ndarray / one-shot iterables
+             (generator, iter(list), map); lists that mix the formats (a PEER or
+             SAC recording before a miniSEED / GCF one) with the options given
+             once as ONE dict; and read_single called for one recording after
+             the other with one and the same options dict
+  observe    inputs the statement does not pin (counted, never judged)
   history    sequences at ONE set of file names inside one process: the files are
              written, read, overwritten (well-formed X / Y / Z that differ in
              samples, length, rate and metadata; malformed contents) and read
@@ -32,6 +43,7 @@ variant, or one list of recordings handed to ``read``):
              values from obspy (binary formats) or a naive str.split parser
              (SAF, PEER); anchors the reference writers to real files
 """
+import io
 import itertools
 import os
 import pathlib
@@ -69,29 +81,29 @@ SPACES = {
                            "float64-wide"],
                   n=N_SAMPLES, rate=[100, 50, 250, 512],
                   naming=["BH", "HH", "EH", "", "HN"], byteorder=["default", "little"]),
-        read=dict(dfn=DFN, kwargs=["none", "empty", "format"], pathtype=["str", "path"])),
+        read=dict(dfn=DFN, kwargs=["none", "empty", "format"], pathtype=["str", "path", "memory"])),
     "mseed3": dict(
         file=dict(payload=["int32-steim2", "int32-steim1", "int32-extreme", "float32", "float64",
                            "float64-wide"],
                   n=N_SAMPLES, rate=[100, 50, 250, 512],
                   naming=["BH", "HH", "EH", "", "HN"], byteorder=["default", "little"]),
-        read=dict(dfn=DFN, kwargs=["none", "empty", "format"], pathtype=["str", "path", "tuple"])),
+        read=dict(dfn=DFN, kwargs=["none", "empty", "format"], pathtype=["str", "path", "tuple", "memory"])),
     "sac": dict(
         file=dict(payload=["ramp", "inexact", "wide"], n=N_SAMPLES, rate=[100, 50, 250, 512],
                   naming=["BH", "HH", "EH", "", "HN"], endian=["little", "big", "mixed"]),
-        read=dict(dfn=DFN, kwargs=["none", "empty", "format"], pathtype=["str", "path", "tuple"])),
+        read=dict(dfn=DFN, kwargs=["none", "empty", "format"], pathtype=["str", "path", "tuple", "memory"])),
     "gcf": dict(
         file=dict(payload=["ramp", "extreme", "smallstep"], n=N_SAMPLES, rate=[100, 50, 250, 500],
                   naming=["BH", ""]),
-        read=dict(dfn=DFN, kwargs=["none", "empty", "format"], pathtype=["str", "path"])),
+        read=dict(dfn=DFN, kwargs=["none", "empty", "format"], pathtype=["str", "path", "memory"])),
     "saf": dict(
         file=dict(payload=["ramp", "extreme", "inexact"], n=N_SAMPLES, rate=[100, 50, 250, 512, 62.5],
                   north_rot=[0, 15, 90, 350, None, 15.5], newline=["\n", "\r\n"], padded=[True, False]),
-        read=dict(dfn=DFN, kwargs=["none", "empty"], pathtype=["str", "path"])),
+        read=dict(dfn=DFN, kwargs=["none", "empty"], pathtype=["str", "path", "memory"])),
     "minishark": dict(
         file=dict(payload=["ramp", "extreme", "inexact"], n=N_SAMPLES, rate=[250, 50, 100, 512],
                   gain=[1, 2, 64], conversion=[1, 2, 64], newline=["\n", "\r\n"]),
-        read=dict(dfn=DFN, kwargs=["none", "empty"], pathtype=["str", "path"])),
+        read=dict(dfn=DFN, kwargs=["none", "empty"], pathtype=["str", "path", "memory"])),
     "peer": dict(
         file=dict(payload=["ramp", "mixed", "zeros"], style=["fortran", "c"], n=N_SAMPLES,
                   dt=[".0200", ".0050", "0.0100"],
@@ -99,7 +111,7 @@ SPACES = {
                          "UP,20,110", "UP,90,180", "UP,315,45", "UP,45,315", "VER,315,45",
                          "HNZ,HNN,HNE", "BHZ,BHN,BHE", "EHZ,EHN,EHE", "HLZ,HLN,HLE"],
                   newline=["\n", "\r\n"]),
-        read=dict(dfn=DFN, kwargs=["none", "empty"], pathtype=["str", "path", "tuple"])),
+        read=dict(dfn=DFN, kwargs=["none", "empty"], pathtype=["str", "path", "tuple", "memory"])),
 }
 
 # number of deviations from the default case that are enumerated completely
@@ -133,9 +145,23 @@ OBSERVE_ONLY = {("mseed3", "one-file-three-traces")}
 
 READ_POOL = {"quick": ["mseed1", "sac3", "saf", "gcf1"],
              "thorough": ["mseed1", "sac3", "saf", "gcf1", "peer3", "mseed3"]}
-KW_SHAPES = ["none", "empty", "trim", "list-format", "list-trim"]
+KW_SHAPES = ["none", "empty", "headonly", "trim", "list-format", "list-trim"]
 DFN_SHAPES = ["none", "scalar", "list"]
-DFN_LIST = [10, 20, 400]
+DFN_LIST = [10, 20, 400, -45]
+# containers of the per-recording values (first = default); the last three are one-shot iterables
+KW_CONTAINERS = ["list", "tuple", "generator", "iter", "map"]
+DFN_CONTAINERS = ["list", "tuple", "ndarray", "generator", "iter", "map"]
+# lists that mix the formats, with a PEER / SAC recording in front of a miniSEED / GCF one
+# (the quick pool holds no PEER recording); the thorough pool yields all lists up to length
+# three by itself, the two of length four are added
+READ_MIXED = {
+    "quick": [["peer3", "mseed1"], ["mseed1", "peer3"], ["peer3", "gcf1"], ["gcf1", "peer3"], ["peer3", "mseed3"],
+              ["peer3", "sac3"], ["sac3", "peer3"], ["peer3", "saf"], ["peer3", "peer3"], ["sac3", "mseed3"],
+              ["mseed3", "sac3"],
+              ["peer3", "mseed1", "gcf1"], ["mseed1", "peer3", "gcf1"], ["peer3", "sac3", "mseed1"],
+              ["sac3", "peer3", "mseed3"], ["peer3", "mseed1", "peer3"]],
+    "thorough": [["peer3", "sac3", "mseed1", "gcf1"], ["sac3", "peer3", "gcf1", "mseed3"]],
+}
 DFN_SCALAR = 33
 
 
@@ -210,15 +236,21 @@ def _call_single(fnames, kwargs, dfn):
     return rec
 
 
-def judge_single(ctx, root, fam, detail, exp, res, dfn_arg, cls="well-formed", cls_dfn=None):
+def judge_single(ctx, root, fam, detail, exp, res, dfn_arg, cls="well-formed", cls_dfn=None, refusal_ok=None):
     """Compare one read_single outcome with the expectation; report; return digest.
 
-    ``cls`` names the input class in the violation keys."""
+    ``cls`` names the input class in the violation keys.  ``refusal_ok``: name
+    of a counter; raising is then accepted and counted there (a way of handing
+    the input over that the statement does not pin), a recording that IS
+    returned is judged as usual."""
     ctx.count("validated")
     if isinstance(res, tuple) and res and res[0] == "raised":
         ctx.outcome(("raised", fam, res[1]))
         if exp.may_refuse and dfn_arg is None:
             ctx.count("refused_nonstandard_layout")
+            return None
+        if refusal_ok:
+            ctx.count(refusal_ok)
             return None
         ctx.violation(f"C07:read_single:{fam}:{cls}:raised", root, detail=detail,
                       expected=_short_exp(exp, dfn_arg), observed=list(res),
@@ -446,7 +478,29 @@ def _kwargs(fam, name):
     raise KeyError(name)
 
 
-def _paths(fnames, pathtype):
+def _stream(path, fam):
+    """The file's content as the in-memory object the readers of ``fam`` take:
+    io.StringIO (text as ``open(path).read()`` gives it) for SAF / MiniShark /
+    PEER, io.BytesIO for miniSEED / SAC / GCF; positioned at the start."""
+    if fam in TEXT_FAMS:
+        with open(path, "r") as f:
+            return io.StringIO(f.read())
+    with open(path, "rb") as f:
+        return io.BytesIO(f.read())
+
+
+# readers that rewind an in-memory file themselves before every attempt: the
+# same stream objects can be read again.  The miniSEED and GCF readers leave
+# the stream where obspy stopped (a second read of the same object is refused
+# today) - that second read is only counted.
+REWINDING = ("sac", "saf", "minishark", "peer")
+
+
+def _paths(fnames, pathtype, fam=None):
+    if pathtype == "memory":
+        if isinstance(fnames, (list, tuple)):
+            return [_stream(f, fam) for f in fnames]
+        return _stream(fnames, fam)
     conv = pathlib.Path if pathtype == "path" else str
     if isinstance(fnames, (list, tuple)):
         seq = [conv(f) for f in fnames]
@@ -490,11 +544,42 @@ def run_family(root, ctx, tier):
                 ctx.count("states")
                 ctx.nontrivial_case((fam, cfg, var["label"], rd))
                 ctx.count("transitions")
-                res = _call_single(_paths(var["fnames"], rd["pathtype"]), _kwargs(fam, rd["kwargs"]), rd["dfn"])
+                mem = rd["pathtype"] == "memory"
+                arg = _paths(var["fnames"], rd["pathtype"], fam)
+                res = _call_single(arg, _kwargs(fam, rd["kwargs"]), rd["dfn"])
                 cls, cls_dfn = _input_class(fam, cfg)
-                dig = judge_single(ctx, root, fam, detail, var["exp"], res, rd["dfn"], cls=cls, cls_dfn=cls_dfn)
+                refusal_ok = None
+                if mem:
+                    detail["how"] += ("; pathtype 'memory': every file is loaded into an io.StringIO (SAF, MiniShark, "
+                                      "PEER; text as open(path).read() returns it) / io.BytesIO (miniSEED, SAC, GCF) "
+                                      "and the stream objects are handed over in place of the names")
+                    cls = "in-memory" if cls == "well-formed" else cls + "-in-memory"
+                    cls_dfn = "in-memory" if cls_dfn == "well-formed" else cls_dfn + "-in-memory"
+                    ctx.count("in_memory_reads")
+                    if fam == "gcf" and rd["kwargs"] == "none":
+                        # read_single tries the miniSEED reader first, which leaves the stream in the
+                        # middle; the GCF reader does not rewind: refused today.  Not pinned by the
+                        # statement: counted, a recording that is returned is judged.
+                        refusal_ok = "observed_in_memory_gcf_default_options_refused"
+                dig = judge_single(ctx, root, fam, detail, var["exp"], res, rd["dfn"], cls=cls, cls_dfn=cls_dfn,
+                                   refusal_ok=refusal_ok)
                 if dig is not None:
                     digests[var["label"]] = dig
+                if mem:
+                    # the SAME stream objects once more: the second read must give the same recording
+                    ctx.count("states")
+                    ctx.nontrivial_case((fam, cfg, var["label"], rd, "second-read"))
+                    ctx.count("transitions")
+                    res2 = _call_single(arg, _kwargs(fam, rd["kwargs"]), rd["dfn"])
+                    detail2 = dict(detail, how=detail["how"] + "; the same stream objects are read a SECOND time, "
+                                                               "the outcome of the second read is judged here")
+                    if fam in REWINDING:
+                        ctx.count("in_memory_second_reads")
+                        refusal2 = None
+                    else:
+                        refusal2 = refusal_ok or "observed_in_memory_second_read_of_unrewound_stream_refused"
+                    judge_single(ctx, root, fam, detail2, var["exp"], res2, rd["dfn"],
+                                 cls=cls + "-second-read", cls_dfn=cls_dfn + "-second-read", refusal_ok=refusal2)
                 if len(ctx.samples) < 2 and var is variants[-1]:
                     ctx.sample(dict(detail, expected=_short_exp(var["exp"], rd["dfn"]),
                                     observed=list(res) if isinstance(res, tuple) else _short(_obs(res))))
@@ -788,6 +873,8 @@ def _kw_for(shape, entries, i):
         return None, 0
     if shape == "empty":
         return {}, 0
+    if shape == "headonly":                 # one dict for all, without a 'format' entry
+        return {"headonly": False}, 0
     if shape == "trim":                     # one dict for all: starts 2.5 samples in
         return {"starttime": _utc(2.5 / 100)}, (3 if e["fmt"] else 0)
     if shape == "list-format":
@@ -797,85 +884,231 @@ def _kw_for(shape, entries, i):
     raise KeyError(shape)
 
 
+def _contain(values, how):
+    """The per-recording values in the container named ``how`` (a NEW object per call)."""
+    values = list(values)
+    if how == "list":
+        return values
+    if how == "tuple":
+        return tuple(values)
+    if how == "ndarray":
+        return np.array(values, dtype=float)
+    if how == "generator":
+        return (v for v in values)
+    if how == "iter":
+        return iter(values)
+    if how == "map":
+        return map(lambda v: v, values)
+    raise KeyError(how)
+
+
+def _read_cases(tier, labels):
+    """(kshape, dshape, container of the per-recording kwargs, of the per-recording
+    degrees_from_north, of fnames).  All shape combinations with plain lists;
+    the other containers within one deviation from that (quick: paired with a
+    subset of the shapes of the other argument, plus three cases in which both
+    are not lists; on lists of three only when the three recordings differ) or
+    in full product (thorough)."""
+    klist = [k for k in KW_SHAPES if k.startswith("list")]
+    cases = [(k, d, "list", "list", "list") for k in KW_SHAPES for d in DFN_SHAPES]
+    cases.append(("list-trim", "list", "list", "list", "tuple"))
+    cases.append(("none", "none", "list", "list", "tuple"))
+    if tier == "quick" and len(labels) >= 3 and len(set(labels)) < len(labels):
+        pass
+    elif tier == "quick":
+        for k in klist:
+            for kc in KW_CONTAINERS[1:]:
+                cases += [(k, d, kc, "list", "list") for d in ("none", "list")]
+        for dc in DFN_CONTAINERS[1:]:
+            cases += [(k, "list", "list", dc, "list") for k in ("none", "trim", "list-trim")]
+        cases += [("list-trim", "list", "generator", "generator", "list"),
+                  ("list-trim", "list", "iter", "map", "list"),
+                  ("list-format", "list", "tuple", "ndarray", "tuple")]
+    else:
+        for k in KW_SHAPES:
+            for d in DFN_SHAPES:
+                for kc in (KW_CONTAINERS if k in klist else ["list"]):
+                    for dc in (DFN_CONTAINERS if d == "list" else ["list"]):
+                        for fc in ("list", "tuple"):
+                            c = (k, d, kc, dc, fc)
+                            if c not in cases and (kc, dc) != ("list", "list"):
+                                cases.append(c)
+    return cases
+
+
 def run_read(root, ctx, tier):
     labels = root["recs"]
     wd = tempfile.mkdtemp(prefix="hvmc-c07-")
     try:
         entries = [build_pool_entry(wd, lab, i) for i, lab in enumerate(labels)]
         m = len(entries)
+        refs = {}
+        for (kshape, dshape, kcont, dcont, fcont) in _read_cases(tier, labels):
+            plain = (kcont, dcont, fcont) == ("list", "list", "list")
+            for bare in ([False, True] if (plain and m == 1 and not isinstance(entries[0]["fnames"], (list, tuple)))
+                         else [False]):
+                _one_read(root, ctx, entries, labels, kshape, dshape, bare, kcont, dcont, fcont, refs)
         for kshape in KW_SHAPES:
-            for dshape in DFN_SHAPES:
-                for bare in ([False, True] if (m == 1 and not isinstance(entries[0]["fnames"], (list, tuple)))
-                             else [False]):
-                    _one_read(root, ctx, entries, labels, kshape, dshape, bare)
+            if not kshape.startswith("list") and kshape != "none":
+                _shared_dict_sequence(root, ctx, entries, labels, kshape, refs)
     finally:
         shutil.rmtree(wd, ignore_errors=True)
 
 
-def _one_read(root, ctx, entries, labels, kshape, dshape, bare):
+def _dfn_each(dshape, m):
+    if dshape == "none":
+        return [None] * m
+    if dshape == "scalar":
+        return [DFN_SCALAR] * m
+    return list(DFN_LIST[:m])
+
+
+def _references(root, ctx, entries, labels, kshape, dshape, detail, refs):
+    """read_single per element with its OWN arguments (fresh dicts), judged against
+    the written samples; once per (kwargs shape, degrees_from_north shape) and root."""
+    if (kshape, dshape) in refs:
+        return refs[(kshape, dshape)]
     m = len(entries)
-    per = [_kw_for(kshape, entries, i) for i in range(m)]
-    if kshape.startswith("list"):
-        kw_arg = [_kw_for(kshape, entries, i)[0] for i in range(m)]
+    d_each = _dfn_each(dshape, m)
+    out = []
+    for i, e in enumerate(entries):
+        ctx.count("transitions")
+        kw, drop = _kw_for(kshape, entries, i)
+        r = _call_single(e["single"], kw, d_each[i])
+        exp = _trim_expected(e["exp"], drop) if drop else e["exp"]
+        judge_single(ctx, root, "read-element:" + labels[i], dict(detail, element=i), exp, r, d_each[i])
+        out.append(r)
+    refs[(kshape, dshape)] = out
+    return out
+
+
+def _one_read(root, ctx, entries, labels, kshape, dshape, bare, kcont="list", dcont="list", fcont="list", refs=None):
+    m = len(entries)
+    refs = {} if refs is None else refs
+    klist, dlist = kshape.startswith("list"), dshape == "list"
+    if klist:
+        kw_arg = _contain([_kw_for(kshape, entries, i)[0] for i in range(m)], kcont)
     else:
         kw_arg = _kw_for(kshape, entries, 0)[0]
+    kw_before = dict(kw_arg) if isinstance(kw_arg, dict) else None
+    d_each = _dfn_each(dshape, m)
     if dshape == "none":
-        d_arg, d_each = None, [None] * m
+        d_arg = None
     elif dshape == "scalar":
-        d_arg, d_each = DFN_SCALAR, [DFN_SCALAR] * m
+        d_arg = DFN_SCALAR
     else:
-        d_arg, d_each = list(DFN_LIST[:m]), list(DFN_LIST[:m])
-    fn_arg = entries[0]["fnames"] if bare else [e["fnames"] for e in entries]
-    detail = dict(family="read", recordings=labels, kwargs_shape=kshape, degrees_from_north=d_arg,
+        d_arg = _contain(d_each, dcont)
+    if bare:
+        fn_arg = entries[0]["fnames"]
+    else:
+        fn_arg = [e["fnames"] for e in entries]
+        fn_arg = tuple(fn_arg) if fcont == "tuple" else fn_arg
+    plain = (kcont, dcont, fcont) == ("list", "list", "list")
+    detail = dict(family="read", recordings=labels, kwargs_shape=kshape,
+                  degrees_from_north=(d_each if dlist else d_arg),
                   fnames_not_in_a_list=bare,
                   how="hvmc.checks.c07.build_pool_entry writes each recording; kwargs per _kw_for()")
-    kclass = "list" if kshape.startswith("list") else "scalar"
-    dclass = "list" if dshape == "list" else "scalar"
-    if kclass != dclass:
+    if not plain:
+        detail.update(per_recording_kwargs_given_as=(kcont if klist else "one value"),
+                      per_recording_degrees_from_north_given_as=(dcont if dlist else "one value"),
+                      fnames_given_as=fcont,
+                      how=detail["how"] + "; containers per hvmc.checks.c07._contain() (generator = (v for v in "
+                                          "values), iter = iter(values), map = map(identity, values), ndarray = "
+                                          "numpy float array)")
+    kclass = "list" if klist else "scalar"
+    dclass = "list" if dlist else "scalar"
+    if not plain:
+        key_base = ("C07:read():container:kwargs-as-" + (kcont if klist else "one-value") +
+                    ":dfn-as-" + (dcont if dlist else "one-value") + ":fnames-as-" + fcont)
+        suffix = True
+    elif kclass != dclass:
         key_base = "C07:read():degrees_from_north-broadcast-follows-shape-of-obspy_read_kwargs"
+        suffix = False
     else:
         key_base = f"C07:read():kwargs-{kshape}:dfn-{dshape}"
+        suffix = True
     ctx.count("states")
-    ctx.nontrivial_case(("read", labels, kshape, dshape, bare))
+    ctx.nontrivial_case(("read", labels, kshape, dshape, bare, kcont, dcont, fcont))
+    if not plain:
+        ctx.count("read_container_cases")
+    if len(set(e["fmt"] or labels[i] for i, e in enumerate(entries))) > 1 and isinstance(kw_arg, dict):
+        ctx.count("read_mixed_formats_one_dict")
     ctx.count("transitions")
     try:
         got = DW.read(fn_arg, obspy_read_kwargs=kw_arg, degrees_from_north=d_arg)
     except Exception as e:      # noqa: BLE001
         got = ("raised", type(e).__name__, str(e)[:300])
-    # reference: read_single per element with its own arguments (fresh dicts)
-    refs = []
-    for i, e in enumerate(entries):
-        ctx.count("transitions")
-        refs.append(_call_single(e["single"], _kw_for(kshape, entries, i)[0], d_each[i]))
+    if kw_before is not None and kw_arg != kw_before:
+        # not pinned by the statement (the SAC reader records the byte order it tries in the dict
+        # it is given, today): counted only
+        ctx.count("observed_callers_options_dict_changed_by_read")
+    rf = _references(root, ctx, entries, labels, kshape, dshape, detail, refs)
     ctx.count("validated")
-    # the references themselves are judged against the written samples
-    for i, (e, r) in enumerate(zip(entries, refs)):
-        exp = _trim_expected(e["exp"], per[i][1]) if per[i][1] else e["exp"]
-        judge_single(ctx, root, "read-element:" + labels[i], dict(detail, element=i), exp, r, d_each[i])
-    if any(isinstance(r, tuple) for r in refs):
+    if any(isinstance(r, tuple) for r in rf):
         return
     if isinstance(got, tuple) and got and got[0] == "raised":
         ctx.outcome(("read-raised", kshape, dshape, got[1]))
-        ctx.violation(key_base + (":raised" if kclass == dclass else ""), root, detail=detail,
-                      expected=[_short(_obs(r)) for r in refs], observed=list(got),
+        ctx.violation(key_base + (":raised" if suffix else ""), root, detail=detail,
+                      expected=[_short(_obs(r)) for r in rf], observed=list(got),
                       explanation=f"read() raised {got[1]} although read_single() succeeds on every "
                                   "entry with its own arguments")
         return
     if not isinstance(got, list) or len(got) != m:
-        ctx.violation(key_base + (":length" if kclass == dclass else ""), root, detail=detail,
+        ctx.violation(key_base + (":length" if suffix else ""), root, detail=detail,
                       expected=m, observed=(len(got) if hasattr(got, "__len__") else repr(got)),
                       explanation="read() did not return one recording per entry")
         return
-    if len(ctx.samples) < 4:
+    if len(ctx.samples) < 4 and plain:
         ctx.sample(dict(detail, observed=[_short(_obs(g)) for g in got]))
-    for i, (g, r) in enumerate(zip(got, refs)):
+    for i, (g, r) in enumerate(zip(got, rf)):
         og, orf = _obs(g), _obs(r)
         ctx.outcome(("read", labels[i]) + _obs_digest(og))
         if _obs_digest(og) != _obs_digest(orf):
-            ctx.violation(key_base + (":element-differs" if kclass == dclass else ""), root,
+            ctx.violation(key_base + (":element-differs" if suffix else ""), root,
                           detail=dict(detail, element=i), expected=_short(orf), observed=_short(og),
                           explanation=f"read()[{i}] differs from read_single(fnames[{i}], kwargs_{i}, "
                                       f"degrees_from_north_{i})")
+
+
+def _shared_dict_sequence(root, ctx, entries, labels, kshape, refs):
+    """read_single for one recording after the other, all calls given ONE and the
+    same options dict; every call must return what it returns with a dict of its own."""
+    m = len(entries)
+    shared = _kw_for(kshape, entries, 0)[0]
+    before = dict(shared)
+    detail = dict(family="read", recordings=labels, kwargs_shape=kshape, degrees_from_north=None,
+                  how="hvmc.checks.c07.build_pool_entry writes each recording; options = ONE dict per _kw_for(shape, "
+                      "entries, 0); read_single(recording_i, options, None) for i = 0, 1, ... in turn, the same dict "
+                      "object in every call")
+    rf = _references(root, ctx, entries, labels, kshape, "none", detail, refs)
+    key_base = f"C07:read_single:successive-calls-sharing-one-options-dict:kwargs-{kshape}"
+    for i, e in enumerate(entries):
+        ctx.count("states")
+        ctx.nontrivial_case(("shared-dict", labels, kshape, i))
+        ctx.count("transitions")
+        ctx.count("shared_dict_calls")
+        got = _call_single(e["single"], shared, None)
+        ctx.count("validated")
+        r = rf[i]
+        if isinstance(r, tuple):
+            continue
+        if isinstance(got, tuple):
+            ctx.outcome(("shared-dict-raised", labels[i], got[1]))
+            ctx.violation(key_base + ":raised", root, detail=dict(detail, element=i),
+                          expected=_short(_obs(r)), observed=list(got),
+                          explanation=f"call {i} raised {got[1]} although the same call with an options dict of its "
+                                      f"own succeeds; the dict held {before} before the first call and holds "
+                                      f"{ {k: str(v) for k, v in shared.items()} } now")
+            continue
+        og, orf = _obs(got), _obs(r)
+        ctx.outcome(("shared-dict", labels[i]) + _obs_digest(og))
+        if _obs_digest(og) != _obs_digest(orf):
+            ctx.violation(key_base + ":element-differs", root, detail=dict(detail, element=i),
+                          expected=_short(orf), observed=_short(og),
+                          explanation=f"call {i} returns another recording than the same call with an options dict "
+                                      "of its own")
+    if shared != before:
+        ctx.count("observed_callers_options_dict_changed_by_read_single")
 
 
 # ---------------------------------------------------------------------------
@@ -1259,6 +1492,9 @@ def _read_lists(tier):
     for m in (1, 2, 3):
         for combo in itertools.product(pool, repeat=m):
             out.append(dict(family="read", recs=list(combo)))
+    for recs in READ_MIXED[tier]:
+        if not any(o["recs"] == recs for o in out):
+            out.append(dict(family="read", recs=list(recs)))
     return out
 
 
